@@ -11,6 +11,11 @@ def run(ctx):
     bad = ['bad:c02-merge-out-of-order', 'bad:c01-rejected-but-target-altered', 'bad:c02-send-before-merge']
     q11 = [('reach', 20, ['reach:crashed']), ('stuck', d1, ['bad:c07-wrong-outcome-at-quiescence'])]
     q12 = [('stuck', d2, ['bad:c07-wrong-outcome-at-quiescence'])] + [('bad', d2, [b]) for b in bad]
+    # waypoints: both transactions committed and not applied (one solver-chosen reachable state, possibly after a stop), then
+    # every continuation of 16 steps incl. a process stop anywhere in the two applies
+    way = {'pred': 'reach:w-CC', 'depth': 20, 'seed': {'pred': 'reach:w-C-', 'depth': 20}}
+    q12 += [('bad', 16, ['bad:c02-sent-after-a-later-change', 'bad:c02-send-out-of-order', 'bad:c02-applied-but-never-sent'], way),
+            ('stuck', 18, ['bad:c07-wrong-outcome-at-quiescence'], way)]
     proto.run(ctx, 'C07', [('1x1c', c11, q11, []), ('1x2c', c12, q12, [])],
               'process stops injected between any two store/device calls of any step (symbolic crash position per step, budget of '
               'crashes per history): BMC "at quiescence every transaction has the crash-free outcome, nothing merged twice or out of '
